@@ -199,8 +199,63 @@ ITEMS = [
        ],
        rewrites=[(r'self\.is_authorized_core\(q, pset, entities\)\.concretize\(\)', '{ let __vx_pr = self.is_authorized_core(q, pset, entities); let ghost g_pr = __vx_pr; let __vx_resp = __vx_pr.concretize(); proof { lemma_final(g_pr, pset.policy_seq(), &spec_evaluator(q, entities, self.extensions), __vx_resp); } __vx_resp }', 1)],
        ),
+    # ---- re-authorization (C13): the residual policy set and the call of the authorizer on it ----
+] + [
+    Fn(PR, f'impl PartialResponse > fn all_{eff.lower()}_residuals', wrap='impl PartialResponse',
+       sig_rewrites=[(r"fn (all_\w+_residuals)\(&'_ self\) -> impl Iterator<Item = PolicyComponents<'_>>", r"fn \1<'a>(&'a self) -> VxIter<PolicyComponents<'a>>", 1)],
+       rewrites=[
+           ClosureRw(r'\(id, a\)', "_vxp: (&'a PolicyID, &'a Arc<Annotations>)", ret="(&'a PolicyID, (&'a Arc<Expr>, &'a Arc<Annotations>))", rname='o',
+                     ensures='*o.0 == *_vxp.0 && *o.1.0 == self.true_expr && *o.1.1 == *_vxp.1', destructure='(id, a)'),
+           ClosureRw(r'\(id, \(_, a\)\)', "_vxp: (&'a PolicyID, &'a (ErrorState, Arc<Annotations>))", ret="(&'a PolicyID, (&'a Arc<Expr>, &'a Arc<Annotations>))", rname='o',
+                     ensures='*o.0 == *_vxp.0 && *o.1.0 == self.false_expr && *o.1.1 == _vxp.1.1', destructure='(id, (_, a))'),
+           ClosureRw(r'\(id, \(r, a\)\)', "_vxp: (&'a PolicyID, &'a (Arc<Expr>, Arc<Annotations>))", ret="(&'a PolicyID, (&'a Arc<Expr>, &'a Arc<Annotations>))", rname='o',
+                     ensures='*o.0 == *_vxp.0 && *o.1.0 == _vxp.1.0 && *o.1.1 == _vxp.1.1', destructure='(id, (r, a))', follow=r'\(id,'),
+           ClosureRw(r'\(id, \(r, a\)\)', "_vxp: (&'a PolicyID, (&'a Arc<Expr>, &'a Arc<Annotations>))", ret="PolicyComponents<'a>", rname='o',
+                     ensures=f'o.0 == Effect::{eff} && *o.1 == *_vxp.0 && *o.2 == *_vxp.1.0 && *o.3 == *_vxp.1.1', destructure='(id, (r, a))', follow=r'\(Effect'),
+       ],
+       ensures=[('exact', f'comps_ok(*self, r.items(), Effect::{eff})', ['C13'])],
+       proof_start='broadcast use axiom_hashmap_order_ok;',
+       proof_tail=f"""proof {{
+            let s = __vx_r.items();
+            let (m1, m2, m3) = (self.satisfied_{eff.lower()}s, self.false_{eff.lower()}s, self.residual_{eff.lower()}s);
+            let (n1, n2) = (m1.key_order().len() as int, m2.key_order().len() as int);
+            assert forall|i: int| 0 <= i < s.len() implies comp_ok(*self, #[trigger] s[i], Effect::{eff}) by {{
+                if i < n1 {{ assert(m1@.dom().contains(m1.key_order()[i])); }}
+                else if i < n1 + n2 {{ assert(m2@.dom().contains(m2.key_order()[i - n1])); }}
+                else {{ assert(m3@.dom().contains(m3.key_order()[i - n1 - n2])); }}
+            }}
+            assert forall|id: PolicyID| in_buckets(*self, id, Effect::{eff}) implies #[trigger] comp_has(s, id) by {{
+                if m1@.contains_key(id) {{ let j = choose|j: int| 0 <= j < n1 && m1.key_order()[j] == id; assert(*s[j].1 == id); }}
+                else if m2@.contains_key(id) {{ let j = choose|j: int| 0 <= j < n2 && m2.key_order()[j] == id; assert(*s[n1 + j].1 == id); }}
+                else {{ let j = choose|j: int| 0 <= j < m3.key_order().len() && m3.key_order()[j] == id; assert(*s[n1 + n2 + j].1 == id); }}
+            }}
+        }}""")
+    for eff in ('Permit', 'Forbid')
+] + [
+    Fn(PR, 'impl PartialResponse > fn all_residual_policies', wrap='impl PartialResponse',
+       sig_rewrites=[(r'fn all_residual_policies\(&self\)', "fn all_residual_policies<'a>(&'a self)", 1), (r'-> Result<', '-> std::result::Result<', 1)],
+       rewrites=[ClosureRw(r'\(effect, id, expr, annotations\)', "_vxp: PolicyComponents<'a>", ret='Policy', rname='o',
+                           ensures='o.spec_effect() == _vxp.0 && o.spec_id() == *_vxp.1 && o.spec_condition() == when_cond(**_vxp.2) && o.spec_env() == empty_env()',
+                           destructure='(effect, id, expr, annotations)')],
+       ensures=[('exact', 'r matches Ok(ps) ==> resid_set(*self, ps)', ['C13'])],
+       proof_tail='''proof {
+            if __vx_r is Ok {
+                let ghost ps = __vx_r->Ok_0;
+                assert forall|cp: Seq<PolicyComponents<'a>>, cf: Seq<PolicyComponents<'a>>, items: Seq<Policy>|
+                    #![trigger comps_ok(*self, cp, Effect::Permit), comps_ok(*self, cf, Effect::Forbid), same_policies(ps.policy_seq(), items)]
+                    comps_ok(*self, cp, Effect::Permit) && comps_ok(*self, cf, Effect::Forbid) && built_from(items, cp + cf) && same_policies(ps.policy_seq(), items)
+                    implies resid_set(*self, ps) by { lemma_resid_set(*self, cp, cf, items, ps); }
+            }
+        }'''),
+    Fn(PR, 'impl PartialResponse > fn reauthorize', wrap='impl PartialResponse',
+       sig_rewrites=[(r'-> Result<', '-> std::result::Result<', 1)],
+       rewrites=[(r'\|unknown_name: &str\| -> Option<Value> \{', '|unknown_name: &str| -> (o: Option<Value>) ensures o == str_lookup(*mapping, unknown_name) {', 1),
+                 (r'mapping\.get\(unknown_name\)\.cloned\(\)', 'vx_map_get_str_cloned(mapping, unknown_name)', 1),
+                 (r'Box::new\(unknowns_mapper\)', 'vx_box_mapper(unknowns_mapper, Ghost(*mapping))', 1)],
+       ensures=[('reauth', """r matches Ok(pr) ==> (spec_concretize_request(*self, *mapping) matches Ok(q) && exists|ps: PolicySet| #[trigger] resid_set(*self, ps)
+            && rows_ok(pr, ps.policy_seq(), &spec_with_mapper(spec_evaluator(q, es, auth.extensions), mapper_of(*mapping))))""", ['C13'])]),
 ]
 CANARIES = ['is_authorized_core_internal', 'from']
 # mechanisms of C13 at the response level that no unit covers: a change to them cannot be decided by this check
-UNCOVERED = [('cedar-policy-core/src/authorizer/partial_response.rs', 'impl PartialResponse > fn reauthorize'),
-             ('cedar-policy-core/src/authorizer/partial_response.rs', 'impl PartialResponse > fn concretize_request')]
+UNCOVERED = [('cedar-policy-core/src/authorizer/partial_response.rs', 'impl PartialResponse > fn concretize_request'),
+             ('cedar-policy-core/src/authorizer/partial_response.rs', 'impl EntityUIDEntry > fn concretize')]
